@@ -5,7 +5,7 @@ ID = 'C10'
 HARNESSES = ['h_hist.cpp', 'h_c09.cpp']
 LEVEL = 'model_checking'
 BUDGET = {'quick': 290, 'thorough': 5400}
-BOUNDS = {'quick': 'Parameter::set(data, dims) refused for inconsistent dimensions (every extent a free byte) on a parameter holding nothing / ints / strings / a locked float, for int, float and string data: the parameter must be unchanged; every throwing call in all histories of depth 2 (56 operations incl. partly-invalid arguments: second of two new points/channels duplicate, untyped parameter into a new group, unnamed parameter, unknown group; 7 start states (6 in the quick tier)); full dump before = full dump after decided by z3 (payload symbolic); object printed, saved and reloaded afterwards',
+BOUNDS = {'quick': 'an indexed store far beyond the end (index 32766, 32767, 65535; thorough: nine indices around 2^8, 2^15, 2^16) on the populated object: if refused, header, parameter tree, frame count and the old frames are unchanged; Parameter::set(data, dims) refused for inconsistent dimensions (every extent a free byte) on a parameter holding nothing / ints / strings / a locked float, for int, float and string data: the parameter must be unchanged; every throwing call in all histories of depth 2 (58 operations incl. partly-invalid arguments: second of two new points/channels duplicate, untyped parameter into a new group, unnamed parameter, unknown group; 7 start states (6 in the quick tier)); full dump before = full dump after decided by z3 (payload symbolic); object printed, saved and reloaded afterwards',
           'thorough': 'the same plus depth 3 (unchanged-after-refusal judged after every refused call; the save+reload epilogue only for the depth-2 histories)'}
 OUTSIDE = 'refusals not in the alphabet; histories deeper than the bound'
 ASSUMPTIONS = []
@@ -37,9 +37,23 @@ def set_obligations(sec, job, st):
     B = c09.param_of(sec['before']); A = c09.param_of(sec['after'])
     return c09.param_eq('unchanged', B, A, 'parameter after a refused set() (%d values of type %d, %d free dimensions, prior content kind %d)' % (job['cfg']['ndata'], job['cfg']['type'], job['cfg']['ndims'], job['cfg']['prior']))
 
+def far_jobs(tier):
+    # the "extend" form of the indexed store around the capacity of the 16-bit frame count (the library may accept or refuse)
+    return [{'entry': 'h_far', 'harness': 'h_hist.cpp', 'name': 'far-index', 'first': 1, 'cfg': {'start': 2, 'idx': i}}
+            for i in ((32766, 32767, 65535) if tier == 'quick' else (255, 256, 32765, 32766, 32767, 32768, 65534, 65535, 65536))]
+
+def far_obligations(sec, job, st):
+    out = dict(sec['call'])['call.outcome']
+    if out == 0:
+        return compare(sec['given'], sec['stored'], 'far-index/stored')       # accepted: the frame is there (C06's statement, cheap to keep)
+    O = compare(sec['before'], sec['after'], 'unchanged')
+    for o in O:
+        if o.bad is not False: o.detail = 'after a refused frame(f, %d) (exception class %d): %s' % (job['cfg']['idx'], out, o.detail)
+    return O
+
 def jobs(tier, seed):
     # a duplicate declaration on a frame-less object is in the alphabet here: if it is refused it must change nothing
-    out = hist_jobs('quick', seed, finish=2, dupdeclare=1) + set_jobs(tier)
+    out = far_jobs(tier) + hist_jobs('quick', seed, finish=2, dupdeclare=1) + set_jobs(tier)
     if tier == 'thorough':
         # depth 3: "unchanged" is judged after every refused call; the save+reload epilogue (0.2 s per refused path, 3/4 of the
         # cost) is kept for the depth-2 histories above only
@@ -47,12 +61,14 @@ def jobs(tier, seed):
     return out
 def run_job(engine, job):
     if job['name'] == 'refused-set': return std_run(engine, job, set_obligations, 'c09.end', ID, 'refused-set')
+    if job['name'] == 'far-index': return std_run(engine, job, far_obligations, 'far.end', ID, 'far-index', wall=250, maxsteps=200_000_000)
     return explore(engine, job, ID, per_step)
 
 def native_confirm(nat, v):
     out, sec = native_sections(nat, v['replay'])
     if out['rc'] != 0: return None
     locus = v['id'].split('/', 2)[-1].split('@')[0]
+    if v['job'].get('name') == 'far-index': return any(o.bad is True and o.locus == locus for o in far_obligations(sec, v['job'], None))
     if v['job'].get('name') == 'refused-set': return any(o.bad is True and o.locus == locus for o in set_obligations(sec, v['job'], None))
     for k, (b, call, a) in enumerate(steps_of(sec)):
         for o in per_step(k, b, call, a, None, sec):
